@@ -51,7 +51,8 @@ def generate(rseed, tier='quick'):
         rules += editgen.abstract_rules(e)
     ops.append({'op': 'quantize', 'q': 0,
                 'threshold': r.choices(['zero', 'below', 'equal', 'huge', 'half'], [5, 3, 2, 1, 1])[0]})
-  return {'v': 1, 'property': PROP, 'run_seed': rseed, 'knobs': {},
+  knobs = {'input_in_large_form': r.random() < 0.15}
+  return {'v': 1, 'property': PROP, 'run_seed': rseed, 'knobs': knobs,
           'world': {'models': [mdesc], 'datasets': [ddesc]}, 'ops': ops}
 
 
@@ -286,6 +287,19 @@ def execute(doc):
   mdesc = doc['world']['models'][0]
   spec, mbytes = modelgen.get_model(mdesc)
   data = modelgen.gen_dataset(spec, doc['world']['datasets'][0])
+  if doc['knobs'].get('input_in_large_form'):
+    # Models above 2 GB arrive with their constants already stored after the flatbuffer. Produce
+    # such an input from the float model with the library itself: a recipe that matches nothing,
+    # pushed through the large-model path. (If that fails the run continues on the plain model.)
+    try:
+      q0 = quantizer.Quantizer(bytearray(mbytes))
+      q0.update_quantization_recipe('nomatch_zzz_input', 'BATCH_MATMUL', A.mk_config('drq8_ch'))
+      ext = quantize_with_knob(q0, None, 0)
+      if constants_total(quantize_with_knob(q0, None, None)) > 0:
+        mbytes = bytearray(ext)
+        rec.probe('input_in_large_form')
+    except Exception as e:  # pylint: disable=broad-except
+      rec.event(-1, 'input-large-form', 'raised:' + harness.exc_class(e))
   q = quantizer.Quantizer(bytearray(mbytes))
   for step, op in enumerate(doc['ops']):
     if op['op'] in ('update', 'load'):
